@@ -57,6 +57,8 @@ def install_sinks(reg):
     """external objects whose operations do not touch the sampler"""
     reg.globals['h5py'] = Opaque('sink:h5py')
     reg.globals['Path'] = Opaque('sink:path')
+    reg.globals['os'] = Opaque('sink:os')
+    reg.globals['copyfile'] = Opaque('sink:copyfile')
     reg.globals['get_terminal_size'] = Opaque('sink:terminal')
     # the generator's state is read (never advanced) when a checkpoint is made
     reg.lib['rng.bit_generator'] = None
